@@ -1134,49 +1134,31 @@ func r03OverlapOnInclusiveEdge(c *core.Ctx) {
 		k    int64
 		ax   int64
 	}
-	var ordOf func(fr *boolFrame, v ssa.Value) (ord, bool)
-	ordOf = func(fr *boolFrame, v ssa.Value) (ord, bool) {
-		ld, ok := v.(*ssa.UnOp)
-		if !ok || ld.Op != token.MUL {
+	// (resolved through local copies, helper and closure parameters and captured variables)
+	ordOf := func(fr *boolFrame, v ssa.Value) (ord, bool) {
+		root, path, ok := accessPath(fr, v, 0)
+		if !ok || len(path) != 2 {
 			return ord{}, false
 		}
-		inner, ok := ld.X.(*ssa.IndexAddr)
-		if !ok {
-			return ord{}, false
-		}
-		ax := int64(-1)
-		if k, ok := inner.Index.(*ssa.Const); ok && k.Value != nil {
-			ax = k.Int64()
-		} else if val, ok := fr.ienv[inner.Index]; ok {
-			ax = val
-		}
-		outer, ok := inner.X.(*ssa.IndexAddr)
-		if !ok || ax < 0 {
-			return ord{}, false
-		}
-		kc, ok := outer.Index.(*ssa.Const)
-		if !ok || kc.Value == nil {
-			return ord{}, false
-		}
-		a, ok := outer.X.(*ssa.Alloc)
-		if !ok {
-			return ord{}, false
-		}
-		switch fr.callerValue(onceStored(a)) {
+		switch root {
 		case line:
-			return ord{"L", kc.Int64(), ax}, true
+			return ord{"L", path[0], path[1]}, true
 		case edge:
-			return ord{"E", kc.Int64(), ax}, true
+			return ord{"E", path[0], path[1]}, true
 		}
 		return ord{}, false
 	}
-	pointOf := func(v ssa.Value) (string, bool) {
+	pointOfIn := func(fr *boolFrame, v ssa.Value) (string, bool) {
 		// whole endpoint line[k] / the exclusive tip of the edge
-		if call, ok := v.(*ssa.Call); ok && core.StaticCalleeID(call) == core.ModPath+"/pointindex.getExclusiveTip" && call.Call.Args[0] == edgeI && resolveValue(call.Call.Args[1]) == edge {
+		root, path, ok := accessPath(fr, v, 0)
+		if !ok {
+			return "", false
+		}
+		if call, isCall := root.(*ssa.Call); isCall && len(path) == 0 && core.StaticCalleeID(call) == core.ModPath+"/pointindex.getExclusiveTip" && call.Call.Args[0] == edgeI && resolveValue(call.Call.Args[1]) == edge {
 			return "tip", true
 		}
-		if arr, k, ok := elementOf(v); ok && arr == line {
-			return fmt.Sprintf("L%d", k), true
+		if root == line && len(path) == 1 {
+			return fmt.Sprintf("L%d", path[0]), true
 		}
 		return "", false
 	}
@@ -1207,8 +1189,8 @@ func r03OverlapOnInclusiveEdge(c *core.Ctx) {
 					}
 				}
 			}
-			if p, ok := pointOf(x.X); ok {
-				if q, ok := pointOf(x.Y); ok {
+			if p, ok := pointOfIn(fr, x.X); ok {
+				if q, ok := pointOfIn(fr, x.Y); ok {
 					if q != "tip" {
 						p, q = q, p
 					}
